@@ -14,6 +14,7 @@ def main(ctx):
     J.append({'mod': MOD, 'fn': 'kernels', 'mode': 'sym', 'args': {'kind': 'bounds', 'measure': 'max', 'threshold': 0.5, 'cap': cap}})
     J.append({'mod': MOD, 'fn': 'regularization', 'mode': 'sym', 'args': {'kernel': 1, 'cap': cap}})
     J.append({'mod': MOD, 'fn': 'regularization', 'mode': 'sym', 'args': {'kernel': 3, 'depth': 1, 'cap': cap}})
+    J.append({'mod': MOD, 'fn': 'regularization', 'mode': 'sym', 'args': {'kernel': 1, 'nan_pixel': True, 'cap': cap}})       # a point with NaN bounds is ignored
     J.append({'mod': MOD, 'fn': 'std_intensity', 'mode': 'sym', 'args': {'R': 3, 'C': 4, 'cap': cap}})
     J.append({'mod': MOD, 'fn': 'std_intensity', 'mode': 'sym', 'args': {'R': 3, 'C': 3, 'bands': ['r', 'g'], 'band': 'g', 'cap': cap}})
     if not ctx.quick:
